@@ -4,7 +4,9 @@ every order entry point of both clients (low level and Exchange level); decimal_
 classes on generated payloads; timestamp decoding on dense samples."""
 import asyncio
 import datetime
+import decimal
 import json
+import re
 from decimal import Decimal
 from fractions import Fraction as F
 
@@ -170,8 +172,15 @@ def run(chk):
     for _ in range(common.tier_n(chk.tier, 400, 8000)):
         d = wd.gen_decimal(rnd) if rnd.random() < 0.9 else -wd.gen_decimal(rnd)
         t1, t2 = bbase.decimal_to_str(d), sclient.decimal_to_str(d)
-        if t1 != t2:
-            chk.violation("wire:formatters-disagree", f"{d!r}: binance '{t1}' vs bitstamp '{t2}'", {"decimal": str(d)})
+        for who, t in (("binance", t1), ("bitstamp", t2)):
+            # the property itself: plain fixed-point text denoting exactly the value passed
+            if not re.fullmatch(r"-?[0-9]+(\.[0-9]+)?", t):
+                chk.violation("wire:not-plain-fixed-point", f"{who} decimal_to_str({d!r}) = '{t}'", {"decimal": str(d)})
+            elif decimal.Decimal(t) != d:
+                chk.violation("wire:value-changed", f"{who} decimal_to_str({d!r}) = '{t}' denotes another number",
+                              {"decimal": str(d), "text": t})
+        if t1 != t2 and chk.tier:
+            chk.count("formatters_differ_textually")
         neg, i, f = text_parts(t1)
         fcases.append(f"({dec_lit(d)}, ({blit(neg)}, {listlit([str(x) + '%nat' for x in i])}, {listlit([str(x) + '%nat' for x in f])}))")
         scases.append(f"({dec_lit(d)}, {blit('E' in str(d))})")
